@@ -176,7 +176,8 @@ def run(chk, tier, jobs, deadline):
     all_complete = True
     try:
         mat = prepare_material(os.path.join(root, "mat"))
-        seq = [0]
+        import itertools
+        seq = itertools.count(1)
 
         def launch(item, njobs):
             family, depth, variant = item
@@ -184,8 +185,8 @@ def run(chk, tier, jobs, deadline):
             if left < 2:
                 return item, None, None
             env = harnesses.asan_env() if variant == "asan" else None
-            seq[0] += 1
-            cmd = [exes[variant], "--mat", mat, "--root", os.path.join(root, "r%d" % seq[0]), "--family", family,
+            n = next(seq)
+            cmd = [exes[variant], "--mat", mat, "--root", os.path.join(root, "r%d" % n), "--family", family,
                    "--depth", str(depth), "--jobs", str(njobs), "--deadline", str(max(1, int(left)))]
             r = subprocess.run(cmd, capture_output=True, env=env)
             return item, r, r.stdout.decode(errors="replace")
